@@ -696,3 +696,117 @@ vk_harness!(c18_return_without_gosub, {
     vk_cover!(n == 3, "reach: three entries");
     core::mem::forget(r);
 });
+
+// ---------------------------------------------------------------------------------------------------------------
+// C11: the cursor column is "characters since the last newline"
+
+//@ prop: C11
+//@ tier: quick
+//@ unwind: 12
+//@ encodes: Runtime::r#print (string item); Stack::pop
+//@ bounds: printed string of 0..=4 characters, each any ASCII character (newline included, at any position); cursor column any u8 before
+vk_harness!(c11_print_tracks_column, {
+    let mut r = Runtime::default();
+    let col0 = vk::any_u8() as usize;
+    r.print_col = col0;
+    let n = vk::any_below(5) as usize;
+    let mut chars = [0u8; 4];
+    let mut s = String::new();
+    let mut i = 0;
+    while i < 4 {
+        let c = vk::any_u8();
+        vk::assume(c < 128);
+        chars[i] = c;
+        if i < n {
+            s.push(c as char);
+        }
+        i += 1;
+    }
+    r.stack.push(Val::String(s.into())).unwrap();
+    let got = r.r#print();
+    // oracle: characters since the last newline, carried over from the column before
+    let mut want = col0;
+    let mut j = 0;
+    while j < 4 {
+        if j < n {
+            if chars[j] == b'\n' {
+                want = 0;
+            } else {
+                want += 1;
+            }
+        }
+        j += 1;
+    }
+    vk_check!(r.print_col == want, "C11: the cursor column is the number of characters since the last newline");
+    match got {
+        Ok(Event::Print(text)) => vk_check!(text.len() == n, "C11: PRINT emits exactly the item's characters"),
+        _ => vk_check!(false, "C11: PRINT of a string must emit it"),
+    }
+    vk_cover!(n == 4 && chars[1] == b'\n' && chars[3] != b'\n', "reach: embedded newline");
+    vk_cover!(n == 0, "reach: empty string");
+    core::mem::forget(r);
+});
+
+// ---------------------------------------------------------------------------------------------------------------
+// C17 / C03: one INPUT field is converted for its variable
+
+//@ prop: C17 C03
+//@ tier: quick
+//@ unwind: 12
+//@ encodes: Runtime::r#input (string-variable arm: blank stripping, one pair of enclosing quotes)
+//@ bounds: reply field of 0..=4 characters, each a double quote, a blank or a letter; variable A$; VM in the state after a reply was accepted
+vk_harness!(c17_input_string_field, {
+    let mut r = Runtime::default();
+    r.state = State::InputRunning;
+    let n = vk::any_below(5) as usize;
+    let mut chars = [0u8; 4];
+    let mut s = String::new();
+    let mut i = 0;
+    while i < 4 {
+        let c = match vk::any_below(3) {
+            0 => b'"',
+            1 => b' ',
+            _ => b'x',
+        };
+        chars[i] = c;
+        if i < n {
+            s.push(c as char);
+        }
+        i += 1;
+    }
+    r.stack.push(Val::String(s.into())).unwrap();
+    let got = r.r#input("A$".into());
+    // oracle: strip blanks at both ends, then one pair of enclosing quotes if the rest is at least two characters
+    let mut lo = 0;
+    let mut hi = n;
+    while lo < hi && chars[lo] == b' ' {
+        lo += 1;
+    }
+    while hi > lo && chars[hi - 1] == b' ' {
+        hi -= 1;
+    }
+    if hi - lo >= 2 && chars[lo] == b'"' && chars[hi - 1] == b'"' {
+        lo += 1;
+        hi -= 1;
+    }
+    vk_check!(matches!(got, Ok(None)), "C17: a string field is always acceptable; C03: it must never crash");
+    match r.stack.last() {
+        Some(Val::String(v)) => {
+            vk_check!(v.len() == hi - lo, "C17: a string field is the reply without surrounding blanks and without one pair of enclosing quotes");
+            let vb = v.as_bytes();
+            let mut k = 0;
+            while k < 4 {
+                if k < hi - lo && k < vb.len() {
+                    vk_check!(vb[k] == chars[lo + k], "C17: the field's characters are preserved");
+                }
+                k += 1;
+            }
+        }
+        _ => vk_check!(false, "C17: the converted field must be left on the stack for the assignment"),
+    }
+    vk_cover!(n == 1 && chars[0] == b'"', "reach: lone quote");
+    vk_cover!(n == 2 && chars[0] == b'"' && chars[1] == b'"', "reach: empty quoted string");
+    vk_cover!(n == 4 && chars[0] == b' ' && chars[1] == b'"', "reach: blank then quote");
+    core::mem::forget(r);
+    core::mem::forget(got);
+});
